@@ -1953,8 +1953,8 @@ fn bal_case(ctx: &mut Ctx, par: usize, qs: &[Value], branch: &str) {
             if all != want {
                 ctx.fail(idx, "balance/not-a-partition", format!("bins {:?} are not a partition of 0..{} (parallelism {})", bins, qs.len(), par));
             }
-            if !qs.is_empty() && bins.len() != par {
-                ctx.fail(idx, "balance/bin-count", format!("{} bins for parallelism {}", bins.len(), par));
+            if !qs.is_empty() && bins.len() != par.min(qs.len()) {
+                ctx.fail(idx, "balance/bin-count", format!("{} bins for parallelism {} and {} queries", bins.len(), par, qs.len()));
             }
             if bins.iter().filter(|b| !b.is_empty()).count() >= 2 {
                 ctx.nontrivial(&format!("bal|{}|{}|{:?}", par, qs.len(), bins.iter().map(|b| b.len()).collect::<Vec<_>>()));
@@ -3050,8 +3050,11 @@ fn builder_streams(ctx: &mut Ctx, tag: u64) {
         match rng.below(8) {
             0 => must = false,
             1 => {
-                m.insert("key".into(), junk(&mut rng));
-                must = false;
+                let j = junk(&mut rng);
+                if !j.is_string() {
+                    must = false;
+                }
+                m.insert("key".into(), j);
             }
             _ => {
                 m.insert("key".into(), json!(["k", "injected", "a b", ""][rng.below(4)]));
@@ -3262,6 +3265,10 @@ fn entry_streams(ctx: &mut Ctx, fixtures: &[(Fixture, bool)], profile: Profile, 
         entry_case(ctx, fx, *pc, Entry::Texts(vec![b[0].to_string(), "{oops".to_string()], None), None, true, "corpus_entry");
         entry_case(ctx, fx, *pc, Entry::Texts(vec![b[0].to_string(), b[1].to_string()], Some("{\"parallelism\": 3}".to_string())), Some(json!({"parallelism": 3})), true, "corpus_entry");
         entry_case(ctx, fx, *pc, Entry::Texts(vec![b[0].to_string()], Some("not json".to_string())), None, true, "corpus_entry");
+        // a parallelism far beyond the batch size: the bins are per query at most (it used to allocate `parallelism`
+        // bins: an allocation failure aborts the process)
+        entry_case(ctx, fx, *pc, Entry::Vec(b.clone()), Some(json!({"parallelism": 4_000_000_000_000u64})), true, "corpus_huge_parallelism");
+        entry_case(ctx, fx, *pc, Entry::Vec(b.clone()), Some(json!({"parallelism": u64::MAX})), true, "corpus_huge_parallelism");
         entry_case(ctx, fx, *pc, Entry::Vec(b.clone()), Some(json!(5)), true, "corpus_run_config");
         entry_case(ctx, fx, *pc, Entry::Vec(b.clone()), Some(json!({"parallelism": -1})), false, "corpus_run_config");
         entry_case(ctx, fx, *pc, Entry::Vec(b), Some(json!({"response_output_policy": {"type": "file", "filename": fx.dir.join("no_such_dir/x.json").to_str().unwrap_or_default(), "format": {"type": "json", "newline_delimited": false}}})), true, "corpus_run_config");
